@@ -132,6 +132,7 @@ REGISTER_ENUM(Color, { {Color::Red, "Red"}, {Color::Green, "Green"} })
 struct EnumRow { Color c = Color::Red; int n = 0; template <class A> void Serialize(A& ar) { ar << BitSerializer::KeyValue("n", n) << BitSerializer::KeyValue("c", c); } };
 struct WideRow { int n = 0; bool extra = false; template <class A> void Serialize(A& ar) { ar << BitSerializer::KeyValue("n", n); if (extra) { int e = 1; ar << BitSerializer::KeyValue("e", e); } } };
 struct ArrHolder { std::array<int, 3> fixed{}; int z = 0; template <class A> void Serialize(A& ar) { ar << BitSerializer::KeyValue("fixed", fixed) << BitSerializer::KeyValue("z", z); } };
+struct TupHolder { std::tuple<int, int, int> fixed{}; int z = 0; template <class A> void Serialize(A& ar) { ar << BitSerializer::KeyValue("fixed", fixed) << BitSerializer::KeyValue("z", z); } };
 struct Req3 { int a = 0, b = 0, c = 0; template <class A> void Serialize(A& ar) { ar << BitSerializer::KeyValue("a", a, BitSerializer::Required()) << BitSerializer::KeyValue("b", b, BitSerializer::Required()) << BitSerializer::KeyValue("c", c, BitSerializer::Required()); } };
 struct Outer { Req3 inner; std::vector<Req3> list; template <class A> void Serialize(A& ar) { ar << BitSerializer::KeyValue("inner", inner) << BitSerializer::KeyValue("list", list); } };
 
@@ -395,6 +396,9 @@ static void body(bsx::Ctx& c) {
 		r = withArchNoCsv(arch, [&](auto tag) { using A = typename decltype(tag)::type; return ledgerTypedLoad<A>(h, bytes, stream, lib::opts(), leaked); });
 		c.nontrivial(sig + std::to_string(cnt));
 		judgeCommon(c, sig, r, leaked, cnt != 3, "count=" + std::to_string(cnt));
+		// the same document into std::tuple<int,int,int>: fewer elements than the tuple must be reported (more are left unread)
+		{ TupHolder th; long lk2 = 0; Res r2 = withArchNoCsv(arch, [&](auto tag) { using A = typename decltype(tag)::type; return ledgerTypedLoad<A>(th, bytes, stream, lib::opts(), lk2); });
+		  judgeCommon(c, sig + "/target=tuple", r2, lk2, cnt < 3, "count=" + std::to_string(cnt) + " into tuple<int,int,int>"); }
 	} else if (kind == 3) {
 		int n = 3; int pos = c.choose(n, "row");
 		c.describe(sig, "row " + std::to_string(pos) + " carries an unknown enum name");
